@@ -34,6 +34,7 @@ type acase struct {
 	Segs []struct {
 		Good bool `json:"good"`
 		Len  int  `json:"len"`
+		Kw   bool `json:"kw"`
 	} `json:"segs"`
 	Lead    int    `json:"lead"`
 	Dbl     bool   `json:"dbl"`
@@ -116,6 +117,22 @@ func main() {
 	run.Finish()
 }
 
+// pick draws a segment of the requested class (well-formed or not; starting with a resynchronisation keyword or not).
+func pick(good, bad []stmts.Stmt, wantGood, wantKw bool, rng *rand.Rand) stmts.Stmt {
+	pool := bad
+	if wantGood {
+		pool = good
+	}
+	for tries := 0; tries < 10000; tries++ {
+		st := pool[rng.Intn(len(pool))]
+		if st.KwStart == wantKw {
+			return st
+		}
+	}
+	core.Fatalf("no segment of class good=%v kw=%v in the pools", wantGood, wantKw)
+	return stmts.Stmt{}
+}
+
 func recover1(text string) ([]string, []*parser.ParseError, []error) {
 	st, errs := gosqlx.ParseWithRecovery(text)
 	var trees []string
@@ -183,11 +200,7 @@ func child(in, out string) {
 			lineNo := 1 + c.Lead
 			for i, s := range c.Segs {
 				var st stmts.Stmt
-				if s.Good {
-					st = good[rng.Intn(len(good))]
-				} else {
-					st = bad[rng.Intn(len(bad))]
-				}
+				st = pick(good, bad, s.Good, s.Kw, rng)
 				segs = append(segs, st)
 				segLine[i] = lineNo
 				sb.WriteString(st.SQL)
